@@ -480,7 +480,7 @@ def oscxSteps (cls : List Ctx) (pairs : List (Nat × Nat × Ctx)) (store : M.Osc
       let seq := ci.map fun i => st.sseqs.getD i 0
       -- M: association->recipient_ctx selects the Sender Context; the association goes unless is_observe
       let mctx := M.Oscore.srvResponseCtx st.srv rm.token
-      -- M: does the response take a Sender Sequence Number (association->is_observe forces it, fix ae365ed)
+      -- M: does the response take a Sender Sequence Number (association->is_observe forces it, fix 155f0b4)
       let mfresh := (M.Oscore.srvOwnPiv st.srv rm.token (hasObserve rm.opts) (f = "1")).getD false
       match serverSendAny aes128 st.sst rm (f = "1") (seq.getD 0) newmid with
       | none =>
